@@ -1380,4 +1380,24 @@ def standin_fmt_comments_everywhere(tier, seed):
     return r
 
 
-STANDINS = [standin_token_mutations, standin_garbage, standin_generated_edges, standin_cli_fmt_converters, standin_fmt_comments_everywhere]
+def standin_import_cycles_no_crash(tier, seed):
+    """C04 half of the import-cycle family of bounded/c09.py: a project with an import cycle (at every expression position, incl. the
+    argument and the template of a format expression) must END - no stack overflow, no abort, no hang.  Whether the diagnostic names the
+    cycle is C09's business and not reported here."""
+    try:
+        from bounded import c09
+    except Exception as e:       # noqa
+        return dict(name='import_cycles_no_crash', bound='-', cases=0, status='error', detail='bounded/c09.py cannot be imported: %r' % e)
+    r = dict(c09.standin_cycles('quick', seed))
+    r['name'] = 'import_cycles_no_crash'
+    r['bound'] = 'the cyclic projects of bounded/c09.py (quick family): every build ends without a crash or a hang'
+    if r.get('status') == 'violation':
+        d = (r.get('detail') or '').lower()
+        if not any(w in d for w in ('crash', 'no result', 'status -', 'overflow', 'signal')):
+            r['status'] = 'ok'       # a missing / wrong diagnostic is C09's
+            r.pop('input', None)
+            r['detail'] = ''
+    return r
+
+
+STANDINS = [standin_token_mutations, standin_garbage, standin_generated_edges, standin_cli_fmt_converters, standin_fmt_comments_everywhere, standin_import_cycles_no_crash]
